@@ -9,7 +9,7 @@ import struct
 import tempfile
 
 from mc import keys as K
-from mc.engine import PRUNE, State, System, Violation, call, canon
+from mc.engine import PRUNE, State, System, Violation, call, canon, twin_divergence
 
 from probables import BloomFilter, ExpandingBloomFilter, RotatingBloomFilter
 
@@ -376,18 +376,27 @@ class ExpSystem(System):
         finally:
             shutil.rmtree(tmp, ignore_errors=True)
 
-    def _queries(self, cfg, st, bad):
+    def _ro(self, cfg, st):
         f = st.impl
-        before = self._obs(cfg, f)
         for k in self._probes(cfg, st):
             call(f.check, k)
             call(f.__contains__, k)
         call(bytes, f)
         call(f.export, io.BytesIO())
         call(lambda: (f.expansions, f.elements_added, f.estimated_elements, f.false_positive_rate, f.hash_function))
+
+    def _queries(self, cfg, st, bad):
+        f = st.impl
+        before = self._obs(cfg, f)
+        self._ro(cfg, st)
         after = self._obs(cfg, f)
         if before != after:
             bad("C19", "exp.queries_do_not_mutate", {"before": repr(before)[:300], "after": repr(after)[:300]})
+        if self.cur_depth <= cfg.get("twin_depth", 2):
+            div = twin_divergence(self, cfg, st, lambda q: self._ro(cfg, q), lambda x: self._obs(cfg, x.impl))
+            if div is not None:
+                bad("C19", "exp.queried_twin_diverges_one_step_later", div)
+
 
     def check_initial(self, cfg, st, props):
         return self.check_state(cfg, st, ("init",), ("ok", None), st, set(props))
